@@ -2,6 +2,11 @@
 #![allow(dead_code, unused_imports)]
 use super::*;
 
+/// crate-private derivation exposed for the native witness finder
+pub fn gen_params(f: u64, p: u16, ws: u64) -> ObjectTransmissionInformation {
+    ObjectTransmissionInformation::generate_encoding_parameters(f, p, ws)
+}
+
 #[cfg(kani)]
 pub(crate) mod kani_oti {
     use super::super::*;
